@@ -48,6 +48,11 @@ Section SExprInd.
 End SExprInd.
 
 (* ---------- the uniform fragment ---------- *)
+(* the operand of an index / field access is not the untyped [] / {} itself (the parser gives
+   [][0]  the type none without reporting an error at the expression) *)
+Definition not_empty_base (l : expr) : bool :=
+  match spec_tc l with Some (_, SEmptyArr) | Some (_, SEmptyMap) => false | _ => true end.
+
 Definition same_types (ks : list (kind * sty)) : bool :=
   match ks with x :: r => forallb (fun y => sty_eqb (snd y) (snd x)) r | [] => true end.
 
@@ -65,10 +70,10 @@ Fixpoint uniform (e : expr) : bool :=
   | EUn _ a => uniform a
   | EGroup a => uniform a
   | EIndex l i =>
-      uniform l && uniform i && match spec_tc (EIndex l i) with Some (_, t) => closed t | None => true end
+      not_empty_base l && uniform l && uniform i && match spec_tc (EIndex l i) with Some (_, t) => closed t | None => true end
   | ESlice l s e' => uniform l && opt s && opt e'
-  | EDot l => uniform l && match spec_tc (EDot l) with Some (_, t) => closed t | None => true end
-  | EAssert a _ => uniform a
+  | EDot l => not_empty_base l && uniform l && match spec_tc (EDot l) with Some (_, t) => closed t | None => true end
+  | EAssert a t => closed t && uniform a
   end.
 
 Fixpoint uniforms (l : list expr) : bool := match l with [] => true | x :: r => uniform x && uniforms r end.
@@ -344,6 +349,7 @@ Proof.
     destruct (is_inferrer n); [|discriminate]. destruct (infer_node n); [discriminate|contradiction].
   - (* index *)
     cbn [uniform] in Hu. apply andb_true_iff in Hu as [Hu Hc]. apply andb_true_iff in Hu as [Hu1 Hu2].
+    apply andb_true_iff in Hu1 as [_ Hu1].
     rewrite Hs in Hc. cbn [spec_tc] in Hs.
     destruct (spec_tc e1) as [[k1 a]|] eqn:E1; [|discriminate].
     destruct (spec_tc e2) as [[k2 b]|] eqn:E2; [|discriminate].
@@ -383,7 +389,7 @@ Proof.
       destruct (node_type ln) as [| | | | |f u|f u| | | |]; simpl in L1, L2; try discriminate; subst a;
       simpl in Et; try discriminate; simpl; try rewrite Tx; try rewrite Ty; reflexivity.
   - (* field access *)
-    cbn [uniform] in Hu. apply andb_true_iff in Hu as [Hu1 Hc].
+    cbn [uniform] in Hu. apply andb_true_iff in Hu as [Hu1 Hc]. apply andb_true_iff in Hu1 as [_ Hu1].
     rewrite Hs in Hc. cbn [spec_tc] in Hs.
     destruct (spec_tc e) as [[k1 a]|] eqn:E1; [|discriminate].
     destruct (dot_type_s a) as [t'|] eqn:Ed; [|discriminate]. inversion Hs; subst.
@@ -395,7 +401,7 @@ Proof.
     eexists. split; [reflexivity|]. split; [simpl; rewrite (proj1 (fixed_type_keeps u)); exact L1|].
     split; [simpl; apply erase_fixed_type|discriminate].
   - (* type assertion *)
-    cbn [uniform] in Hu. cbn [spec_tc] in Hs.
+    cbn [uniform] in Hu. apply andb_true_iff in Hu as [_ Hu]. cbn [spec_tc] in Hs.
     destruct (spec_tc e) as [[k1 a]|] eqn:E1; [|discriminate].
     destruct a; try discriminate.
     destruct (negb (sty_eqb t SAny) && closed t) eqn:Ec; [|discriminate]. inversion Hs; subst.
@@ -585,3 +591,171 @@ Proof.
   exists T, (shown_type n). split; [|exact T1]. unfold check. rewrite HT, Hn.
   rewrite (check_accept_exact T n T2); [reflexivity|rewrite T1; exact Hg].
 Qed.
+
+(* ====================================================================== *)
+(* conversely: what the implementation types without error, the specification types *)
+(* ====================================================================== *)
+Definition tc_def (e : expr) : Prop :=
+  uniform e = true -> forall n, tc e = ONode n false -> exists k s, spec_tc e = Some (k, s).
+
+Lemma tc_node e (Hu : uniform e = true) k s n :
+  spec_tc e = Some (k, s) -> tc e = ONode n false -> good n s.
+Proof.
+  intros Hs Hn. destruct (tc_uniform e Hu k s Hs) as (n' & Hn' & Hg). rewrite Hn in Hn'. inversion Hn'; subst. exact Hg.
+Qed.
+
+Lemma seq_inv : forall els ns, seq_outcomes (map tc els) = Some (Some (ns, false)) ->
+  Forall (fun e => exists n, tc e = ONode n false) els.
+Proof.
+  induction els as [|e els IH]; intros ns H; [constructor|]. simpl in H.
+  destruct (tc e) as [n er| |] eqn:Et; try discriminate.
+  destruct (is_none (node_type n)); [discriminate|].
+  destruct (seq_outcomes (map tc els)) as [[[ns' er']|]|] eqn:Es; try discriminate.
+  inversion H; subst. apply orb_false_iff in H2 as [-> ->].
+  constructor; [eauto|]. eapply IH; reflexivity.
+Qed.
+
+Lemma all_def : forall els, Forall tc_def els -> uniforms els = true ->
+  Forall (fun e => exists n, tc e = ONode n false) els -> exists ks, all_some (map spec_tc els) = Some ks.
+Proof.
+  induction els as [|e els IH]; intros HF Hu Hn; simpl; [eauto|].
+  inversion HF as [|? ? He HF']; subst. inversion Hn as [|? ? [n Hne] Hn']; subst.
+  simpl in Hu. apply andb_true_iff in Hu as [Hu1 Hu2].
+  destruct (He Hu1 n Hne) as (k & s & ->). destruct (IH HF' Hu2 Hn') as (ks & ->). eauto.
+Qed.
+
+Lemma bound_conv x : tc_def x -> uniform x = true ->
+  forall nx, tc x = ONode nx false -> is_num (node_type nx) = true -> exists k', sbound (Some x) = Some k'.
+Proof.
+  intros IH Hu nx Hx Hnum. destruct (IH Hu nx Hx) as (kx & tx & Hs).
+  destruct (tc_node x Hu kx tx nx Hs Hx) as (_ & G2 & _).
+  simpl. rewrite Hs. destruct (node_type nx); try discriminate. simpl in G2. subst tx. eauto.
+Qed.
+
+Theorem tc_uniform_conv : forall e, tc_def e.
+Proof.
+  induction e as [| | |t|t|els H|els H|op e1 e2 IHe1 IHe2|op e IHe|e IHe|e1 e2 IHe1 IHe2|e1 o1 o2 IHe1 IHo1 IHo2|e IHe|e t IHe]
+    using sexpr_ind; intros Hu n Hn; try (simpl; eauto; fail).
+  - (* array literal *)
+    rewrite uniform_EArr in Hu. apply andb_true_iff in Hu as [Hu1 _]. cbn [tc] in Hn.
+    destruct (seq_outcomes (map tc els)) as [[[ns er]|]|] eqn:Es; try discriminate.
+    assert (er = false) as ->.
+    { destruct ns; [inversion Hn; reflexivity|]. destruct (combine _); [|discriminate].
+      destruct (wrap_all _ _); [|discriminate]. inversion Hn; reflexivity. }
+    destruct (all_def els H Hu1 (seq_inv els ns Es)) as (ks & Hk). cbn [spec_tc]. rewrite Hk.
+    destruct ks; eauto.
+  - (* map literal *)
+    rewrite uniform_EMap in Hu. apply andb_true_iff in Hu as [Hu1 _]. cbn [tc] in Hn.
+    destruct (seq_outcomes (map tc els)) as [[[ns er]|]|] eqn:Es; try discriminate.
+    assert (er = false) as ->.
+    { destruct ns; [inversion Hn; reflexivity|]. destruct (combine _); [|discriminate].
+      destruct (wrap_all _ _); [|discriminate]. inversion Hn; reflexivity. }
+    destruct (all_def els H Hu1 (seq_inv els ns Es)) as (ks & Hk). cbn [spec_tc]. rewrite Hk.
+    destruct ks; eauto.
+  - (* binary operator *)
+    cbn [uniform] in Hu. apply andb_true_iff in Hu as [Hu _]. apply andb_true_iff in Hu as [Hu1 Hu2].
+    cbn [tc] in Hn.
+    destruct (tc e1) as [ln le| |] eqn:E1; try discriminate. cbn [bind_node] in Hn.
+    destruct (tc e2) as [rn re| |] eqn:E2; try discriminate. cbn [bind_node] in Hn.
+    destruct (validate_binary op (node_type ln) (node_type rn)) eqn:Hv; [|discriminate].
+    inversion Hn as [[Hn1 Hn2]]. apply orb_false_iff in Hn2 as [-> ->].
+    destruct (IHe1 Hu1 ln E1) as (k1 & a & Ha). destruct (IHe2 Hu2 rn E2) as (k2 & b & Hb).
+    destruct (tc_node e1 Hu1 k1 a ln Ha E1) as (L1 & L2 & _).
+    destruct (tc_node e2 Hu2 k2 b rn Hb E2) as (R1 & R2 & _).
+    rewrite validate_binary_spec in Hv by assumption. rewrite L2, R2 in Hv.
+    cbn [spec_tc]. rewrite Ha, Hb. destruct (op_type op a b); [eauto|discriminate].
+  - (* unary operator *)
+    cbn [uniform] in Hu. cbn [tc] in Hn.
+    destruct (tc e) as [rn re| |] eqn:E1; try discriminate. cbn [bind_node] in Hn.
+    destruct (validate_unary op (node_type rn)) eqn:Hv; [|discriminate]. inversion Hn; subst.
+    destruct (IHe Hu rn E1) as (k1 & a & Ha).
+    destruct (tc_node e Hu k1 a rn Ha E1) as (R1 & R2 & _).
+    cbn [spec_tc]. rewrite Ha.
+    destruct op, (node_type rn); simpl in Hv, R1, R2; try discriminate; subst a; simpl; eauto.
+  - (* group *)
+    cbn [uniform] in Hu. cbn [tc] in Hn.
+    destruct (tc e) as [gn ge| |] eqn:E1; try discriminate. cbn [bind_node] in Hn. inversion Hn; subst.
+    exact (IHe Hu gn E1).
+  - (* index *)
+    cbn [uniform] in Hu. apply andb_true_iff in Hu as [Hu _]. apply andb_true_iff in Hu as [Hu1 Hu2].
+    apply andb_true_iff in Hu1 as [Hne Hu1]. unfold not_empty_base in Hne.
+    cbn [tc] in Hn.
+    destruct (tc e1) as [ln le| |] eqn:E1; try discriminate. cbn [bind_node] in Hn.
+    destruct (negb _) eqn:Hname in Hn; [discriminate|].
+    destruct (tc e2) as [rn re| |] eqn:E2; try discriminate. cbn [bind_node] in Hn.
+    destruct (index_type (node_type ln) (node_type rn)) as [ti|] eqn:Ei;
+      [|destruct (is_generic (node_type ln)); discriminate].
+    destruct (infer ti); [|discriminate]. inversion Hn as [[Hn1 Hn2]]. apply orb_false_iff in Hn2 as [-> ->].
+    destruct (IHe1 Hu1 ln E1) as (k1 & a & Ha). destruct (IHe2 Hu2 rn E2) as (k2 & b & Hb).
+    destruct (tc_node e1 Hu1 k1 a ln Ha E1) as (L1 & L2 & _).
+    destruct (tc_node e2 Hu2 k2 b rn Hb E2) as (R1 & R2 & _).
+    cbn [spec_tc]. rewrite Ha, Hb. rewrite Ha in Hne. unfold index_type in Ei.
+    destruct (node_type ln); simpl in L1, L2; try discriminate; subst a; try discriminate Hne;
+      destruct (node_type rn); simpl in R1, R2; try discriminate; subst b; simpl in Ei; try discriminate; simpl; eauto.
+  - (* slice *)
+    cbn [uniform] in Hu. apply andb_true_iff in Hu as [Hu Hu3]. apply andb_true_iff in Hu as [Hu1 Hu2].
+    cbn [tc] in Hn.
+    destruct (tc e1) as [ln le| |] eqn:E1; try discriminate. cbn [bind_node] in Hn.
+    assert (X : le = false /\ exists k1 k2, sbound o1 = Some k1 /\ sbound o2 = Some k2 /\
+                  (is_array_name (node_type ln) || is_string (node_type ln) = true)).
+    { destruct o1 as [x|], o2 as [y|]; simpl in IHo1, IHo2, Hu2, Hu3; cbv zeta in Hn;
+        repeat match type of Hn with
+               | (if ?c then _ else _) = _ => let E := fresh "C" in destruct c eqn:E; [discriminate|]
+               | match tc ?z with _ => _ end = _ => let E := fresh "T" in destruct (tc z) eqn:E; try discriminate
+               end;
+        match type of Hn with match ?st with _ => _ end = _ => destruct st eqn:Est; [|discriminate] end;
+        inversion Hn as [[Hn1 Hn2]];
+        repeat (apply orb_false_iff in Hn2 as [Hn2 ?]); subst;
+        unfold slice_type in Est;
+        repeat match type of Est with (if ?c then _ else _) = _ => let E := fresh "D" in destruct c eqn:E; [discriminate|] end;
+        (split; [reflexivity|]);
+        repeat match goal with H : negb _ = false |- _ => apply negb_false_iff in H end.
+      - destruct (bound_conv x IHo1 Hu2 _ T ltac:(assumption)) as (k1 & B1).
+        destruct (bound_conv y IHo2 Hu3 _ T0 ltac:(assumption)) as (k2 & B2). eauto 6.
+      - destruct (bound_conv x IHo1 Hu2 _ T ltac:(assumption)) as (k1 & B1). exists k1, KConst. auto.
+      - destruct (bound_conv y IHo2 Hu3 _ T ltac:(assumption)) as (k2 & B2). exists KConst, k2. auto.
+      - exists KConst, KConst. auto. }
+    destruct X as (-> & k1' & k2' & B1 & B2 & Hname).
+    destruct (IHe1 Hu1 ln E1) as (k1 & a & Ha).
+    destruct (tc_node e1 Hu1 k1 a ln Ha E1) as (L1 & L2 & _).
+    rewrite spec_tc_ESlice, Ha, B1, B2.
+    destruct (node_type ln); simpl in L1, L2, Hname; try discriminate; subst a; simpl; eauto.
+  - (* field access *)
+    cbn [uniform] in Hu. apply andb_true_iff in Hu as [Hu1 _]. apply andb_true_iff in Hu1 as [Hne Hu1].
+    unfold not_empty_base in Hne. cbn [tc] in Hn.
+    destruct (tc e) as [ln le| |] eqn:E1; try discriminate. cbn [bind_node] in Hn.
+    destruct (dot_type (node_type ln)) as [ti|] eqn:Ed; [|destruct (is_generic (node_type ln)); discriminate].
+    destruct (infer ti); [|discriminate]. inversion Hn; subst.
+    destruct (IHe Hu1 ln E1) as (k1 & a & Ha).
+    destruct (tc_node e Hu1 k1 a ln Ha E1) as (L1 & L2 & _).
+    cbn [spec_tc]. rewrite Ha. rewrite Ha in Hne. unfold dot_type in Ed.
+    destruct (node_type ln); simpl in L1, L2; try discriminate; subst a; try discriminate Hne;
+      simpl in Ed; try discriminate; simpl; eauto.
+  - (* type assertion *)
+    cbn [uniform] in Hu. apply andb_true_iff in Hu as [Hct Hu]. cbn [tc] in Hn.
+    destruct (tc e) as [an ae| |] eqn:E1; try discriminate. cbn [bind_node] in Hn.
+    inversion Hn as [[Hn1 Hn2]]. apply orb_false_iff in Hn2 as [-> Hv]. apply negb_false_iff in Hv.
+    destruct (IHe Hu an E1) as (k1 & a & Ha).
+    destruct (tc_node e Hu k1 a an Ha E1) as (L1 & L2 & _).
+    cbn [spec_tc]. rewrite Ha.
+    unfold validate_assert in Hv. apply andb_true_iff in Hv as [Hv1 Hv2].
+    rewrite (is_any_erase _ L1), L2 in Hv2. apply sty_eqb_eq in Hv2. subst a.
+    rewrite (is_any_erase _ (spec_embed t)), erase_embed in Hv1. rewrite Hv1. simpl.
+    rewrite Hct. eauto.
+Qed.
+
+(* the two directions together: on the uniform fragment the implementation builds a node without
+   error exactly when the specification types the expression, and the types agree *)
+Theorem tc_spec_agree e : uniform e = true ->
+  forall n, tc e = ONode n false -> exists k, spec_tc e = Some (k, erase (node_type n)).
+Proof.
+  intros Hu n Hn. destruct (tc_uniform_conv e Hu n Hn) as (k & s & Hs).
+  destruct (tc_node e Hu k s n Hs Hn) as (_ & G2 & _). exists k. rewrite G2. exact Hs.
+Qed.
+
+(* the guard [not_empty_base] is needed: the implementation (like the parser) gives  [][0] == [][0]
+   the type bool without an error, the specification gives  [][0]  no type *)
+Lemma not_empty_base_needed :
+  let e := EBin OpEq (EIndex (EArr []) ELitNum) (EIndex (EArr []) ELitNum) in
+  (exists n, tc e = ONode n false /\ node_type n = TBool) /\ spec_tc e = None.
+Proof. vm_compute. split; [eexists; split; reflexivity|reflexivity]. Qed.
